@@ -22,9 +22,14 @@ CHECKS = {
          "Seeded exploration of polling schedules x packet sequences x link kinds with the real send and receive paths of all three interfaces over simulated devices; every device read is a scheduling point decided from the tape. The oracle is the sent sequence itself (prefix at all times, equality at quiescence, no spurious error, exact unit consumption, bounded liveness once data has arrived). A deterministic sweep puts one would-block burst at every unit position of 12 two-packet sequences on each link. Sampling level: failures replay exactly from the minimised tape.",
          "Trusted: the simulated devices return only values the real drivers can return; FIFO lossless wire; whole frames eventually arrive. Not a proof.",
          "DESIGN.md §5 S-LINK / C13"),
+ "C06": ("exploration",
+         "deterministic simulation with wire fault injection: scripted hostile link-frame streams through the real receivers under seeded polling schedules, probe-packet oracle",
+         "Seeded exploration of fault sequences on the wire (corrupted, wrongly sized, duplicated, reordered, interrupted, foreign frames; line noise; CAN overruns, standard/remote frames) x polling schedules x left-over receiver state x receiver restarts, against the real try_get_packet of all three links. Oracle: every poll returns (no panic, overflow or out-of-bounds: checks are compiled in), no poll blocks once the script is exhausted, and after any prefix two back-to-back probe packets come out as [P1,P2] or as [P2] with an error reported on P1 - never altered, stitched or with P2 missing. Found and led to the repair of four defects (known_findings.txt).",
+         "Trusted: result attribution by the last frame taken from the device; whole link frames only; the library's own encoders define what a valid frame is. Not a proof.",
+         "DESIGN.md §5 S-LINK / C06"),
 }
 
-PENDING = {'C01': 'check not built yet in this round (claimed in DESIGN.md §5; will move to checks when its scenario exists)', 'C06': 'check not built yet in this round (claimed in DESIGN.md §5; will move to checks when its scenario exists)', 'C07': 'check not built yet in this round (claimed in DESIGN.md §5; will move to checks when its scenario exists)', 'C14': 'check not built yet in this round (claimed in DESIGN.md §5; will move to checks when its scenario exists)', 'C15': 'check not built yet in this round (claimed in DESIGN.md §5; will move to checks when its scenario exists)', 'C16': 'check not built yet in this round (claimed in DESIGN.md §5; will move to checks when its scenario exists)', 'C17': 'check not built yet in this round (claimed in DESIGN.md §5; will move to checks when its scenario exists)', 'C18': 'check not built yet in this round (claimed in DESIGN.md §5; will move to checks when its scenario exists)', 'C19': 'check not built yet in this round (claimed in DESIGN.md §5; will move to checks when its scenario exists)'}
+PENDING = {'C01': 'check not built yet in this round (claimed in DESIGN.md §5; will move to checks when its scenario exists)', 'C07': 'check not built yet in this round (claimed in DESIGN.md §5; will move to checks when its scenario exists)', 'C14': 'check not built yet in this round (claimed in DESIGN.md §5; will move to checks when its scenario exists)', 'C15': 'check not built yet in this round (claimed in DESIGN.md §5; will move to checks when its scenario exists)', 'C16': 'check not built yet in this round (claimed in DESIGN.md §5; will move to checks when its scenario exists)', 'C17': 'check not built yet in this round (claimed in DESIGN.md §5; will move to checks when its scenario exists)', 'C18': 'check not built yet in this round (claimed in DESIGN.md §5; will move to checks when its scenario exists)', 'C19': 'check not built yet in this round (claimed in DESIGN.md §5; will move to checks when its scenario exists)'}
 
 def cmd(pid, tier):
     return "./check %s %s" % (pid, tier)
